@@ -101,6 +101,14 @@ def run_streams(ck, streams, tier, seed, workers=8):
                     i = bad[0]
                     res["broken"] = "correspondence %s: model and implementation differ on %d of %d cases, first case %d of %s: model=%s engine=%s" % (
                         st["name"], len(bad), len(exp_lines), i, path, (got_lines[i] if i < len(got_lines) else "<missing>")[:300], (exp_lines[i] if i < len(exp_lines) else "<missing>")[:300])
+                    # targeted search for a failing input: the operation sequences on which model and engine disagree are
+                    # run again on the real engine with the property's own predicates checked at every step
+                    if st.get("replay_kinds") and os.path.exists(path + ".json"):
+                        for bi in bad[:6]:
+                            rc3, rep3, _o, _e = C.harness(["pos-replay", path + ".json", bi], timeout=300)
+                            for v in (rep3 or {}).get("violations", []):
+                                if v["kind"] in st["replay_kinds"]:
+                                    res["extra_viol"].append(v)
         elif st["kind"] == "oracle":
             rc2, oout, oerr = C.run("%s < %s" % (os.path.join(C.BUILD, "oracle"), path), timeout=st.get("oracle_timeout", 2400))
             done = [l for l in oout.splitlines() if l.startswith("DONE|")]
